@@ -268,23 +268,38 @@ inductive TermRes where
   | err (e : EClass)
   | panic
 
-def termIRIREF (C : Cfg) (e : End) (env : Env) (inp : List Nat) : TermRes :=
+/-- token → resolved / expanded IRI string -/
+inductive IriRes where
+  | ok (i : List Nat) (rest : List Nat)
+  | err (e : EClass)
+  | panic
+
+def iriIRIREF (C : Cfg) (e : End) (env : Env) (inp : List Nat) : IriRes :=
   match C.P.iriref e inp with
   | .panic => .panic
   | .err c => .err (ofTok c)
   | .ok v rest =>
     match resolveIRI C env v with
     | none => .err .resolve
-    | some i => .ok (.iri i) rest env
+    | some i => .ok i rest
 
-def termPName (C : Cfg) (e : End) (env : Env) (inp : List Nat) : TermRes :=
+def iriPName (C : Cfg) (e : End) (env : Env) (inp : List Nat) : IriRes :=
   match C.P.pname e inp with
   | .panic => .panic
   | .err c => .err (ofTok c)
   | .ok (ns, loc) rest =>
     match env.expand ns loc with
     | none => .err .pfx
-    | some i => .ok (.iri i) rest env
+    | some i => .ok i rest
+
+def IriRes.toTerm (env : Env) : IriRes → TermRes
+  | .ok i rest => .ok (.iri i) rest env
+  | .err c => .err c
+  | .panic => .panic
+
+def termIRIREF (C : Cfg) (e : End) (env : Env) (inp : List Nat) : TermRes := (iriIRIREF C e env inp).toTerm env
+
+def termPName (C : Cfg) (e : End) (env : Env) (inp : List Nat) : TermRes := (iriPName C e env inp).toTerm env
 
 def termBNode (C : Cfg) (e : End) (env : Env) (inp : List Nat) : TermRes :=
   match C.P.bnode e inp with
@@ -440,12 +455,11 @@ def stepLiteralTail (C : Cfg) (e : End) (x : Ectx) (env : Env) (lex : List Nat) 
         else match rest1 with
           | [] => .err (endCls e)
           | c2 :: rest2 =>
-            let tr := if c2 = 0x3c then termIRIREF C e env (c2 :: rest2) else termPName C e env (c2 :: rest2)
+            let tr := if c2 = 0x3c then iriIRIREF C e env (c2 :: rest2) else iriPName C e env (c2 :: rest2)
             match tr with
             | .panic => .panic
             | .err k => .err k
-            | .ok (.iri dt) r env' => .ok { emit := some (mkStmt x (.lit lex dt none)), inp := r, env := env' }
-            | .ok _ _ _ => .panic   -- not reachable: both token kinds yield IRIs
+            | .ok dt r => .ok { emit := some (mkStmt x (.lit lex dt none)), inp := r, env := env }
     else .ok { emit := some (mkStmt x (.lit lex xsdString none)), inp := c :: rest0, env := env }
 
 /-- `reader_scan_Object` on a rune. -/
